@@ -123,11 +123,17 @@ fn int_member() -> BoxedStrategy<ValSpec> {
         3 => small_int().prop_map(ValSpec::Int),
         3 => int_pattern().prop_map(ValSpec::Str),
         1 => any::<bool>().prop_map(ValSpec::Bool),
+        1 => Just(ValSpec::Null),
     ]
     .boxed()
 }
 fn flt_member() -> BoxedStrategy<ValSpec> {
-    prop_oneof![small_float().prop_map(ValSpec::Float), float_pattern().prop_map(ValSpec::Str),].boxed()
+    prop_oneof![
+        4 => small_float().prop_map(ValSpec::Float),
+        4 => float_pattern().prop_map(ValSpec::Str),
+        1 => Just(ValSpec::Null),
+    ]
+    .boxed()
 }
 fn str_cast_member() -> BoxedStrategy<ValSpec> {
     prop_oneof![
@@ -135,6 +141,7 @@ fn str_cast_member() -> BoxedStrategy<ValSpec> {
         1 => small_int().prop_map(ValSpec::Int),
         1 => small_float().prop_map(ValSpec::Float),
         1 => any::<bool>().prop_map(ValSpec::Bool),
+        1 => Just(ValSpec::Null),
     ]
     .boxed()
 }
@@ -336,8 +343,8 @@ fn cast_field() -> BoxedStrategy<String> {
 
 pub fn cmp_shape() -> BoxedStrategy<Shape> {
     let op = prop::sample::select(vec!["==", ">", ">=", "<", "<="]);
-    let nonneg_int = prop::sample::select(vec![0i64, 1, 2, 5, 10, i64::MAX]);
-    let nonneg_flt = prop::sample::select(vec![0.5f64, 1.0, 1.5, 2.0]);
+    let nonneg_int = prop::sample::select(vec![0i64, 1, 2, 5, 10, i64::MAX, -1, -5, i64::MIN]);
+    let nonneg_flt = prop::sample::select(vec![0.5f64, 1.0, 1.5, 2.0, -0.5, -2.5]);
     prop_oneof![
         3 => (cast_field(), op.clone(), nonneg_int.clone())
             .prop_map(|(f, o, c)| Shape::Cmp(OperandSpec::Cast("int", f), o, OperandSpec::Int(c))),
@@ -657,6 +664,37 @@ pub fn rule_nested_focus(with_neg: bool) -> BoxedStrategy<RuleSpec> {
         1 => prop::collection::vec("[ab]{1,2}".prop_map(ValSpec::Str), 2..=3).prop_map(ValSpec::List),
     ])
         .prop_map(|(f, v)| Entry { key: KeySpec::plain(f), val: v });
+    // a quantified list whose members are of different kinds (so they are not batched): on an array
+    // of objects one element has to satisfy the quantifier, not one element per member
+    let quantified_entry = (
+        prop::sample::select(vec!["x", "y", "n"]),
+        prop::collection::vec(("[ab]", 0u8..5), 2..=3),
+        prop::sample::select(vec![KMod::All, KMod::All, KMod::Of(2), KMod::Of(1)]),
+    )
+        .prop_map(|(f, ms, q)| {
+            let members: Vec<ValSpec> = if f == "n" {
+                ms.iter()
+                    .enumerate()
+                    .map(|(i, (_, k))| ValSpec::Str(match (i + *k as usize) % 3 {
+                        0 => ">1".to_string(),
+                        1 => "<5".to_string(),
+                        _ => ">=3".to_string(),
+                    }))
+                    .collect()
+            } else {
+                ms.iter()
+                    .map(|(n, k)| ValSpec::Str(match k {
+                        0 => format!("*{n}*"),
+                        1 => format!("?{n}"),
+                        2 => format!("{n}*"),
+                        3 => format!("i{n}"),
+                        _ => format!("*{n}"),
+                    }))
+                    .collect()
+            };
+            Entry { key: KeySpec { modifier: q, field: f.to_string() }, val: ValSpec::List(members) }
+        });
+    let inner_entry = prop_oneof![5 => inner_entry, 2 => quantified_entry];
     let inner_block = prop::collection::vec(inner_entry, 1..=2).prop_map(|es| {
         let mut seen: Vec<String> = vec![];
         Block(
